@@ -60,6 +60,10 @@ HARNESSES = [
  _h('compress', 'C04_select', 'C04_select', quick=_d4(3), thorough=_d4(4), bounds=BD + '; condition list of 1..min(4,n) truth values (every pattern incl. all-false), axis in [-DIM,DIM)', kf=['KF_C04_COMPRESS_NEGAXIS']),
  _h('compress_flat', 'C04_select', 'C04_select', quick=_dims(3), thorough=_d4(4), bounds=BD + '; condition list of 1..min(4,numel) truth values, axis=None'),
  _h('diagflat', 'C04_select', 'C04_select', quick=_dims(3), thorough=_d4(4), bounds=BD + '; k in [-2,2]'),
+ _h('diagflat_ct', 'C04_select', 'C04_select', quick=[{'KCT': k} for k in (-2, -1, 0, 1, 2)], thorough=[{'KCT': k} for k in (-2, -1, 0, 1, 2)],
+    bounds='view::diagflat(unsigned[3], k) with k a COMPILE-TIME constant (enumerated -2..2; the result shape is computed in the type system); data and result index symbolic'),
+ _h('full_like_etype', 'C04_generate', 'C04_generate', unwind=18, quick=[{'MAXE': 3, 'WITH_DTYPE': 0}, {'MAXE': 3, 'WITH_DTYPE': 1}], thorough=[{'MAXE': 4, 'WITH_DTYPE': 0}, {'MAXE': 4, 'WITH_DTYPE': 1}],
+    bounds='view::full_like(uint8 2-d array, unsigned fill value[, dtype=uint32]): element type of the result and the converted fill value; shape, data, value, index symbolic'),
  _h('split_args', 'C04_split', 'C04_split', quick=_SP(3), thorough=_SP(4), bounds='std::array shape of dim DIM (enumerated 1..3), extents 1..MAXE, axis in [-DIM,DIM), observed piece: symbolic; '
     'run-time section count enumerated 1..3 (dividing the extent); result is a std::vector of slice arguments'),
  _h('split_args_at', 'C04_split', 'C04_split', quick=_SP(3), thorough=_SP(4), bounds='std::array shape of dim DIM, extents 1..MAXE+1, strictly increasing cut positions inside (0,n), axis in [-DIM,DIM), observed piece: symbolic; '
